@@ -89,9 +89,30 @@ func excludedByTag(f *ast.File) bool {
 	return false
 }
 
+// vxFailure is what fail() raises: the current translation unit (one fact section, one translated function) cannot be
+// produced from this source. Units are independent: unit() turns the failure into an error string for that unit only,
+// so that a construct one extractor does not understand does not take the other sections down with it.
+type vxFailure struct{ msg string }
+
 func fail(format string, a ...interface{}) {
-	fmt.Fprintf(os.Stderr, "vx: "+format+"\n", a...)
-	os.Exit(2)
+	panic(vxFailure{fmt.Sprintf(format, a...)})
+}
+
+func unit(f func()) (err string) {
+	defer func() {
+		if r := recover(); r != nil {
+			if v, ok := r.(vxFailure); ok {
+				err = v.msg
+			} else {
+				err = fmt.Sprintf("translator panic: %v", r)
+			}
+			if err == "" {
+				err = "failed"
+			}
+		}
+	}()
+	f()
+	return ""
 }
 
 func (p *Pkg) pos(n ast.Node) string {
@@ -133,6 +154,15 @@ func funcName(fd *ast.FuncDecl) string {
 }
 
 func main() {
+	defer func() {
+		if r := recover(); r != nil {
+			if v, ok := r.(vxFailure); ok {
+				fmt.Fprintf(os.Stderr, "vx: %s\n", v.msg)
+				os.Exit(2)
+			}
+			panic(r)
+		}
+	}()
 	if len(os.Args) < 3 {
 		fail("usage: vx facts|go2lean <repo>")
 	}
@@ -143,29 +173,49 @@ func main() {
 		llrp := load(filepath.Join(repo, "pkg/llrp"))
 		drv := load(filepath.Join(repo, "internal/driver"))
 		rt := load(filepath.Join(repo, "internal/retry"))
-		out["consts"] = map[string]interface{}{"llrp": consts(llrp), "driver": consts(drv), "retry": consts(rt)}
-		out["mirrorType"] = mirrorTable(llrp)
-		out["newInstance"] = newInstance(llrp)
-		out["typeMethods"] = constMethods(llrp, "Type")
-		out["statusMethods"] = statusMethods(llrp)
-		out["writers"] = writers(llrp)
-		out["retryVars"] = retryVars(rt)
-		out["structs"] = structs(llrp)
-		out["marshalMethods"] = marshalMethods(llrp)
-		acc, aux := accessesAux(llrp, []string{"Client"})
-		acc2, aux2 := accessesAux(drv, []string{"LLRPDevice", "Driver"})
-		acc = append(acc, acc2...)
-		out["accesses"] = acc
-		aux.Calls = append(aux.Calls, aux2.Calls...)
-		aux.ChanCloses = append(aux.ChanCloses, aux2.ChanCloses...)
-		aux.PostFork = append(aux.PostFork, aux2.PostFork...)
-		out["raceAux"] = aux
-		out["readCmd"] = cmdSwitches(drv)
-		out["keepAlive"] = keepAliveFacts(drv)
-		out["supervisor"] = supervisorFacts(drv)
-		out["readSide"] = readFacts(llrp)
-		out["chanCaps"] = chanCaps(llrp)
-		out["closeSites"] = gateFacts(llrp)
+		errs := map[string]string{}
+		sec := func(key string, f func() interface{}) {
+			var v interface{}
+			if e := unit(func() { v = f() }); e != "" {
+				errs[key] = e
+				return
+			}
+			out[key] = v
+		}
+		sec("consts", func() interface{} {
+			return map[string]interface{}{"llrp": consts(llrp), "driver": consts(drv), "retry": consts(rt)}
+		})
+		sec("mirrorType", func() interface{} { return mirrorTable(llrp) })
+		sec("newInstance", func() interface{} { return newInstance(llrp) })
+		sec("typeMethods", func() interface{} { return constMethods(llrp, "Type") })
+		sec("statusMethods", func() interface{} { return statusMethods(llrp) })
+		sec("writers", func() interface{} { return writers(llrp) })
+		sec("retryVars", func() interface{} { return retryVars(rt) })
+		sec("structs", func() interface{} { return structs(llrp) })
+		sec("marshalMethods", func() interface{} { return marshalMethods(llrp) })
+		var auxAll interface{}
+		sec("accesses", func() interface{} {
+			acc, aux := accessesAux(llrp, []string{"Client"})
+			acc2, aux2 := accessesAux(drv, []string{"LLRPDevice", "Driver"})
+			acc = append(acc, acc2...)
+			aux.Calls = append(aux.Calls, aux2.Calls...)
+			aux.ChanCloses = append(aux.ChanCloses, aux2.ChanCloses...)
+			aux.PostFork = append(aux.PostFork, aux2.PostFork...)
+			auxAll = aux
+			return acc
+		})
+		if auxAll != nil {
+			out["raceAux"] = auxAll
+		} else {
+			errs["raceAux"] = errs["accesses"]
+		}
+		sec("readCmd", func() interface{} { return cmdSwitches(drv) })
+		sec("keepAlive", func() interface{} { return keepAliveFacts(drv) })
+		sec("supervisor", func() interface{} { return supervisorFacts(drv) })
+		sec("readSide", func() interface{} { return readFacts(llrp) })
+		sec("chanCaps", func() interface{} { return chanCaps(llrp) })
+		sec("closeSites", func() interface{} { return gateFacts(llrp) })
+		out["_errors"] = errs
 		enc := json.NewEncoder(os.Stdout)
 		enc.SetIndent("", " ")
 		if err := enc.Encode(out); err != nil {
